@@ -407,11 +407,45 @@ def _ordered_names(fn: ast.AST) -> List[ast.Name]:
     return out
 
 
+def _split_tuple_assigns(fn: ast.AST) -> int:
+    """a, b = x, f(y)   ->   a = x; b = f(y)     when no target is read on the right-hand side"""
+    n = 0
+    lists = [fn.body]
+    for x in _walk_own(fn):
+        for fld in ("body", "orelse", "finalbody"):
+            sub = getattr(x, fld, None)
+            if isinstance(sub, list) and sub and isinstance(sub[0], ast.stmt) and not isinstance(x, (ast.FunctionDef, ast.AsyncFunctionDef, ast.ClassDef)):
+                lists.append(sub)
+        if isinstance(x, ast.Try):
+            lists += [h.body for h in x.handlers]
+    for lst in lists:
+        i = 0
+        while i < len(lst):
+            st = lst[i]
+            if (isinstance(st, ast.Assign) and len(st.targets) == 1 and isinstance(st.targets[0], (ast.Tuple, ast.List)) and isinstance(st.value, (ast.Tuple, ast.List))
+                    and len(st.targets[0].elts) == len(st.value.elts) and all(isinstance(t, ast.Name) for t in st.targets[0].elts) and not any(isinstance(v, ast.Starred) for v in st.value.elts)):
+                tnames = {t.id for t in st.targets[0].elts}
+                rnames = {y.id for v in st.value.elts for y in ast.walk(v) if isinstance(y, ast.Name)}
+                if not (tnames & rnames) and len(tnames) == len(st.targets[0].elts):
+                    new = []
+                    for t, v in zip(st.targets[0].elts, st.value.elts):
+                        a = ast.Assign(targets=[t], value=v, type_comment=None)
+                        ast.copy_location(a, st)
+                        new.append(a)
+                    lst[i:i + 1] = new
+                    n += 1
+                    i += len(new)
+                    continue
+            i += 1
+    return n
+
+
 def coalesce_copies(tree: ast.Module) -> int:
     total = 0
     for fn in ast.walk(tree):
         if not isinstance(fn, (ast.FunctionDef, ast.AsyncFunctionDef)):
             continue
+        _split_tuple_assigns(fn)
         for _ in range(8):
             loads, stores, banned = _name_counts(fn)
             order = _ordered_names(fn)
